@@ -23,6 +23,7 @@ type Case struct {
 	Message     string          `json:"message"`
 	ReplayExact bool            `json:"replay_exact"`
 	Minimised   bool            `json:"minimised"`
+	GenTape     bool            `json:"gen_tape,omitempty"` // tape is regenerated from (seed, property, run)
 	Trace       []string        `json:"trace,omitempty"`
 }
 
@@ -227,11 +228,15 @@ func LoadCase(path string) (*Case, error) {
 	if err != nil {
 		return nil, err
 	}
+	c := &Case{}
+	if err := json.Unmarshal(b, c); err == nil {
+		return c, nil
+	}
 	// a journal file has the case on its first line
 	if i := strings.IndexByte(string(b), '\n'); i > 0 {
 		b = b[:i]
 	}
-	c := &Case{}
+	c = &Case{}
 	if err := json.Unmarshal(b, c); err != nil {
 		return nil, err
 	}
